@@ -189,6 +189,95 @@ def skip_param_attrs(p):
             return
 
 
+
+def unescape_c(s):
+    # s is c"...": LLVM escapes \XX hex and \\
+    body = s[2:-1]
+    out = bytearray()
+    i = 0
+    while i < len(body):
+        ch = body[i]
+        if ch == '\\':
+            if body[i + 1] == '\\':
+                out.append(0x5c); i += 2
+            else:
+                out.append(int(body[i + 1:i + 3], 16)); i += 3
+        else:
+            out.append(ord(ch)); i += 1
+    return bytes(out)
+
+
+def const_items(M, ty, p, off, items):
+    """parse one constant of type ty from token stream p; append ('b', off, bytes) / ('p', off, sym, addend)"""
+    rt = M.resolve(ty)
+    k, v = p.next()
+    size, _ = M.size_align(rt)
+    if v in ('zeroinitializer', 'undef', 'poison'):
+        return
+    if v == 'null':
+        return
+    if isinstance(rt, IntTy):
+        if v == 'true': iv = 1
+        elif v == 'false': iv = 0
+        elif v == 'ptrtoint':
+            skip_paren(p); return   # not modelled
+        else: iv = int(v)
+        items.append(('b', off, (iv & ((1 << (8 * size)) - 1)).to_bytes(size, 'little')))
+        return
+    if isinstance(rt, PtrTy):
+        if k in ('name', 'qname') and v[0] == '@':
+            items.append(('p', off, v, 0)); return
+        if v == 'getelementptr':
+            p.expect('(')
+            while p.peek()[1] in ('inbounds', 'nuw', 'nusw'): p.next()
+            bt = p.ty(); p.expect(','); p.ty(); base = p.next()[1]
+            add = 0
+            first = True
+            cur = bt
+            while p.accept(','):
+                p.ty(); idx = int(p.next()[1])
+                if first:
+                    add += idx * M.size_align(cur)[0]; first = False
+                else:
+                    rc = M.resolve(cur)
+                    if isinstance(rc, StructTy):
+                        o, ft = M.field_off(rc, idx); add += o; cur = ft
+                    else:
+                        add += idx * M.size_align(rc.el)[0]; cur = rc.el
+            p.expect(')')
+            items.append(('p', off, base, add)); return
+        if v in ('inttoptr', 'bitcast', 'addrspacecast'):
+            skip_paren(p); return
+        raise SyntaxError('const ptr? %r' % v)
+    if isinstance(rt, ArrTy):
+        if k == 'str':
+            items.append(('b', off, unescape_c(v))); return
+        if v == '[':
+            esz = M.size_align(rt.el)[0]
+            i = 0
+            if not p.accept(']'):
+                while True:
+                    et = p.ty()
+                    const_items(M, et, p, off + i * esz, items); i += 1
+                    if p.accept(']'): break
+                    p.expect(',')
+            return
+        raise SyntaxError('const array? %r' % v)
+    if isinstance(rt, StructTy):
+        close = '}' if v == '{' else '}>'
+        if v not in ('{', '<{'): raise SyntaxError('const struct? %r' % v)
+        i = 0
+        if not p.accept(close):
+            while True:
+                ft = p.ty()
+                o, _ = M.field_off(rt, i)
+                const_items(M, ft, p, off + o, items); i += 1
+                if p.accept(close): break
+                p.expect(',')
+        return
+    raise SyntaxError('const of type %r' % rt)
+
+
 class Function:
     def __init__(s, name, ret, params): s.name, s.ret, s.params, s.blocks = name, ret, params, []
 
@@ -435,8 +524,9 @@ class FGen:
             if v[0] == '%':
                 return self.var(v)
             # global / function address
-            if v in self.M.globals or True:
-                return '((unsigned char*)%s%s)' % ('&' if v not in self.M.globals else '', self.G.cname(v))
+            if v not in self.M.globals:
+                self.G.addr_taken.add(v)
+            return '((unsigned char*)%s%s)' % ('&' if v not in self.M.globals else '', self.G.cname(v))
         if k == 'num':
             ct = self.G.cty(ty)
             iv = int(v)
@@ -813,6 +903,9 @@ class FGen:
                 ct = self.G.cty(rty)
                 if 'uadd' in bare: E('%s = (%s)(%s + %s) < %s ? (%s)-1 : (%s)(%s + %s);' % (d, ct, a[0], a[1], a[0], ct, ct, a[0], a[1]))
                 else: E('%s = %s > %s ? (%s)(%s - %s) : 0;' % (d, a[0], a[1], ct, a[0], a[1]))
+            elif bare.startswith('llvm.bswap'):
+                bits = self.M.resolve(rty).bits
+                E('%s = (%s)__builtin_bswap%d(%s);' % (d, self.G.cty(rty), bits, a[0]))
             elif bare.startswith('llvm.ctlz'):
                 bits = self.M.resolve(rty).bits
                 E('%s = %s ? (%s)(__builtin_clzll((unsigned long long)%s) - (64 - %d)) : %d;' % (d, a[0], self.G.cty(rty), a[0], bits, bits))
@@ -878,6 +971,7 @@ def main():
     M = parse_module(open(src).read())
     G = CGen(M)
     G.used_fns = {}
+    G.addr_taken = set()
     bodies = []
     protos = []
     import os
@@ -917,13 +1011,39 @@ def main():
         out.append('static inline %s __undef_%s(void) { %s x; return x; }' % (cn, cn, cn))
     for ct in ('uint8_t', 'uint16_t', 'uint32_t', 'uint64_t', 'unsigned char', 'unsigned char*', 'unsigned __int128'):
         out.append('static inline %s __dflt_%s(void) { return (%s)__VERIFIER_nondet_u64(); }' % (ct, re.sub(r'\W', '_', ct), ct))
-    # globals (contents not modelled in the prototype)
+    # globals with their initialisers; relocations are applied by __vf_init_globals()
+    ginit = []
+    gdecl = []
     for g, (ty, init) in M.globals.items():
         sz, al = M.size_align(ty)
-        out.append('unsigned char %s[%d] __attribute__((aligned(%d)));' % (G.cname(g), max(sz, 1), al))
+        al = max(al, 8 if sz >= 8 else 1)
+        items = []
+        try:
+            const_items(M, ty, P([x for x in init]), 0, items)
+        except Exception as e:
+            raise type(e)('%s\n  in initialiser of %s' % (e, g))
+        data = bytearray(max(sz, 1))
+        for it in items:
+            if it[0] == 'b':
+                data[it[1]:it[1] + len(it[2])] = it[2]
+        cn = G.cname(g)
+        if any(data):
+            gdecl.append('unsigned char %s[%d] __attribute__((aligned(%d))) = {%s};' % (cn, len(data), al, ','.join(str(b) for b in data)))
+        else:
+            gdecl.append('unsigned char %s[%d] __attribute__((aligned(%d)));' % (cn, len(data), al))
+        for it in items:
+            if it[0] == 'p':
+                tgt = it[2]
+                amp = '' if tgt in M.globals else '&'
+                ginit.append('  *(unsigned char**)(%s + %d) = ((unsigned char*)%s%s) + %d;' % (cn, it[1], amp, G.cname(tgt), it[3]))
+                if tgt not in M.globals:
+                    G.addr_taken.add(tgt)
+    out += gdecl
     defined = {f.name for f in M.funcs}
     for name, (ret, ptys, va) in M.decls.items():
         if name.startswith('@llvm.') or (name in defined and not (is_panic_entry(name) or is_abort_entry(name) or is_alloc_entry(name))):
+            continue
+        if name not in G.used_fns and name not in G.addr_taken:
             continue
         cn = G.cname(name)
         params = ', '.join('%s a%d' % (G.cty(t), i) for i, t in enumerate(ptys)) or 'void'
@@ -934,6 +1054,9 @@ def main():
         else:
             out.append('%s %s(%s); /* external: harness-provided */' % (G.cty(ret), cn, params))
     out += protos
+    out.append('void __vf_init_globals(void) {')
+    out += ginit
+    out.append('}')
     out += bodies
     open(dst, 'w').write('\n'.join(out) + '\n')
     print('functions:', len(M.funcs), 'decls:', len(M.decls), 'globals:', len(M.globals))
